@@ -432,6 +432,19 @@ fn judge_err(rt: &InstRt, ctx: &Ctx, e: &bacon_sci::ivp::IVPError, o: &mut Oracl
                 o.surfaced_not_first = true;
             }
             o.ended_by = Some(EndedBy::UserErr);
+            if !reachable {
+                // held by the variant, but no longer part of the error's source() chain: a
+                // caller that treats the item as a `dyn Error` cannot get to its error any more
+                ctx.violate(
+                    "payload-not-in-source-chain",
+                    rt.idx,
+                    format!(
+                        "the Err item holds the {} error returned by the derivative at call {}, but walking source() from the item no longer reaches it",
+                        rt.payload.name(),
+                        crate::stub::tag_call(fired[i])
+                    ),
+                );
+            }
         }
         None => {
             if reachable {
@@ -806,6 +819,58 @@ fn fold_once(rt: &Rc<InstRt>, ctx: &Rc<Ctx>) {
     }
 }
 
+/// After the iterator has ended (with an `Err` or with `None`): consume it by value with
+/// `count()` or `last()`. After an `Err` there must be nothing left.
+fn finish_once(rt: &Rc<InstRt>, ctx: &Rc<Ctx>, last: bool) {
+    let mode: &'static str = if last { "last" } else { "count" };
+    let it = match rt.iter.borrow_mut().take() {
+        Some(it) => it,
+        None => {
+            rt.done_driving.set(true);
+            return;
+        }
+    };
+    {
+        let next_poll = rt.o.borrow().polls + 1;
+        rt.stub.borrow_mut().cur_poll = next_poll;
+    }
+    let mut o = rt.o.borrow_mut();
+    let (ok_items, ret) = if last {
+        match catch_unwind(AssertUnwindSafe(move || it.last_item())) {
+            Ok(None) => {
+                judge_none(rt, ctx, &mut o);
+                (Some(0), PollRet::None)
+            }
+            Ok(Some(Item::Ok { t, .. })) => {
+                judge_ok(rt, ctx, &mut o);
+                (Some(1), PollRet::Ok(t))
+            }
+            Ok(Some(Item::Err(e))) => (None, judge_err(rt, ctx, &e, &mut o)),
+            Err(p) => (None, handle_panic(rt, ctx, &mut o, p)),
+        }
+    } else {
+        match catch_unwind(AssertUnwindSafe(move || it.count_all())) {
+            Ok(n) => {
+                if o.err_seen && n > 0 {
+                    ctx.violate(
+                        "item-after-err",
+                        rt.idx,
+                        format!("count() found {} further item(s) in an iterator that had already yielded an Err", n),
+                    );
+                }
+                if o.done_seen && n > 0 {
+                    o.extra_some_after_done += n as u64;
+                }
+                (Some(n as u64), PollRet::None)
+            }
+            Err(p) => (None, handle_panic(rt, ctx, &mut o, p)),
+        }
+    };
+    rt.done_driving.set(true);
+    drop(o);
+    ctx.log.borrow_mut().push(Event::Collect { inst: rt.idx, mode, ok_items, ret });
+}
+
 /// `for item in it.by_ref().take(n)`
 fn burst_once(rt: &Rc<InstRt>, ctx: &Rc<Ctx>, n: usize) {
     let ended = {
@@ -927,7 +992,7 @@ fn build_instance(
                     // a second constructor call starts a fresh builder; not generated
                     return None;
                 }
-                let (o, b) = construct(spec.kind, spec.dim, spec.field, op, hooks.clone(), spec.y0);
+                let (o, b) = construct(spec.kind, spec.dim, spec.field, spec.data, op, hooks.clone(), spec.y0);
                 builder = b;
                 o
             }
@@ -1230,6 +1295,17 @@ fn drive_once(rt: &Rc<InstRt>, ctx: &Rc<Ctx>, drive: Drive) {
             };
             if ended {
                 collect_once(rt, ctx, true)
+            } else {
+                poll_once(rt, ctx)
+            }
+        }
+        Drive::PollThenCount | Drive::PollThenLast => {
+            let ended = {
+                let o = rt.o.borrow();
+                o.err_seen || o.done_seen
+            };
+            if ended {
+                finish_once(rt, ctx, drive == Drive::PollThenLast)
             } else {
                 poll_once(rt, ctx)
             }
